@@ -18,6 +18,8 @@ on an empty in-memory file).  Afterwards
 * `readmut <off> <x>`   the same on a copy with byte `off mod len` xor-ed with `x`
 * `readtrunc <n>`       the same on the first `n mod (len+1)` bytes
 * `raw <data>`          the same on an arbitrary byte string
+* `sweep <ver> <pre> <lo> <hi>`   hash form: FNV-1a over the `read` lines of the files
+                        `sweepFile ver pre x` for `lo ≤ x < hi` (all two-byte chunk header starts)
 
 `<data>` = parts joined by `+`; a part is hex (`-` = empty), `g<len>:<seed>` (byte `i` =
 `seed + 7i + 13(i/900) + i/256 mod 256`), `z<len>` (zeros), `x<len>:<seed>` (bits 16..23 of the LCG
@@ -98,6 +100,18 @@ def readStr (file : List UInt8) : String :=
     s!"k={kindStr h.kind} len={h.length} ts={toHex h.timestamp} tm={listStr (h.markers.map toString)} " ++
     s!"sha={sha} map={dataTok h.map} | {chunksStr cs} | {fin} | w={listStr (ws.map Warning.name)}"
 
+/-- the file of case `x` of the exhaustive chunk-header sweep: a minimal header of version `ver`,
+optionally an absolute tick marker `2^31 - 10`, the two bytes of `x`, and a fixed tail -/
+def sweepFile (ver : Nat) (pre : Bool) (x : Nat) : List UInt8 :=
+  let z (n : Nat) : List UInt8 := List.replicate n 0
+  Tw.Demo.magic ++ [UInt8.ofNat ver] ++ z 64 ++ z 64 ++ z 4 ++ z 4 ++ Kind.client.magic ++ z 4 ++ z 20
+    ++ (if ver ≠ 3 then z 4 ++ z 256 else [])
+    ++ (if ver = 6 then Tw.Demo.shaExtension ++ z 32 else [])
+    ++ (if pre then [0x80, 0x7f, 0xff, 0xff, 0xf6] else [])
+    ++ [UInt8.ofNat (x / 256), UInt8.ofNat x]
+    ++ [0x05, 0x01, 0x02, 0x03, 0x04, 0x05, 0x06, 0x07, 0x08, 0x09, 0x0a, 0x0b, 0x0c, 0x0d, 0x0e, 0x0f,
+        0x81, 0x00, 0x00, 0x00, 0x07, 0xa3, 0x22, 0x51]
+
 structure Session where
   w : Option Writer := none
 
@@ -124,6 +138,15 @@ def step (s : Session) (toks : List String) : Session × String :=
         | none => ({}, "panic")
         | some w => ({ w := some w }, s!"ok {w.file.length} {fnvBytes fnvOffset w.file}")
     | _, _, _, _, _, _, _, _ => ({}, "bad-args")
+  | ["sweep", ver, pre, lo, hi] =>
+    match parseNat ver, parseNat pre, parseNat lo, parseNat hi with
+    | some ver, some pre, some lo, some hi =>
+      if ver > 255 ∨ pre > 1 ∨ hi > 65536 ∨ lo > hi then (s, "bad-args")
+      else
+        let h := (List.range (hi - lo)).foldl (fun h i =>
+          fnvByte (fnvString h (readStr (sweepFile ver (pre == 1) (lo + i)))) 10) fnvOffset
+        (s, s!"h {h}")
+    | _, _, _, _ => (s, "bad-args")
   | ["raw", d] =>
     match parseData d with
     | some d => (s, readStr d)
